@@ -2,6 +2,7 @@ package dag
 
 import (
 	"fmt"
+	"strings"
 
 	"github.com/pkg/errors"
 
@@ -308,11 +309,17 @@ func RemoveAll(def Definition, repo repository.ClockedRepo) error {
 		return err
 	}
 	for remote := range remotes {
-		refs, err := repo.ListRefs(fmt.Sprintf("refs/remotes/%s/%s/", remote, def.Namespace))
+		prefix := fmt.Sprintf("refs/remotes/%s/%s/", remote, def.Namespace)
+		refs, err := repo.ListRefs(prefix)
 		if err != nil {
 			return err
 		}
 		for _, ref := range refs {
+			// the tracking ref of an ordinary branch named "<namespace>/..." lives under
+			// the same prefix: only what is named after an entity id is ours
+			if entity.Id(strings.TrimPrefix(ref, prefix)).Validate() != nil {
+				continue
+			}
 			err = repo.RemoveRef(ref)
 			if err != nil {
 				return err
